@@ -8,6 +8,10 @@ CLAIMS = {
             "note": BASE_NOTE, "technique": "Lean 4 proof (mutual structural induction on map trees) + correspondence"},
     "C18": {"text": "Theorem that the coded index loop of _Namespace.is_available decides exactly the prefix relation (never IndexError), plus invariants of the namespace model; correspondence with the real code on adversarial name alphabets.",
             "note": BASE_NOTE, "technique": "Lean 4 proof (loop invariant; prefix-free invariant) + correspondence"},
+    "C04": {"text": "Theorems for every layout, every shadow size and every input stream about the implementation-shaped Lean model of Multiplexer.elaborate's read path (r_stb exactness for all inputs; atomic snapshot under the protocol hypothesis); the model is stepped against the real multiplexer in amaranth.sim cycle by cycle on generated layouts and stimuli, and the clauses are evaluated on the real trace.",
+            "note": BASE_NOTE, "technique": "Lean 4 proof (invariants over time on a Mealy-machine model) + cycle-level correspondence with the simulated hardware"},
+    "C05": {"text": "Theorems for every layout, shadow size and input stream about the Lean model of the multiplexer's write path (w_stb exactly one cycle after a write to the last address, for all inputs; transaction prefix invariant for write data); cycle-level correspondence with the real multiplexer in amaranth.sim.",
+            "note": BASE_NOTE, "technique": "Lean 4 proof (invariants over time on a Mealy-machine model) + cycle-level correspondence with the simulated hardware"},
 }
 _TODO = "check not built yet in this round (machinery under construction; see DESIGN.md §11) — not a claim that the technique cannot apply"
 NOT_APPLICABLE = {f"C{i:02d}": _TODO for i in range(1, 21) if f"C{i:02d}" not in CLAIMS}
